@@ -309,7 +309,7 @@ func (t *Template) parseTemplate(cacheAfterParsing bool) (next Node) {
 
 	for t.peek().typ != itemEOF {
 		switch n := t.textOrAction(); n.Type() {
-		case nodeEnd, nodeElse, nodeContent:
+		case nodeEnd, nodeElse, nodeContent, nodeCatch:
 			t.errorf("unexpected %s", n)
 		default:
 			t.Root.append(n)
@@ -509,6 +509,11 @@ func (t *Template) itemList(terminatedBy ...NodeType) (list *ListNode, next Node
 			if n.Type() == terminatorType {
 				return list, n
 			}
+		}
+		switch n.Type() {
+		case nodeEnd, nodeElse, nodeContent, nodeCatch:
+			// a clause that neither closes nor continues the construct this list belongs to
+			t.errorf("unexpected %s", n)
 		}
 		list.append(n)
 	}
